@@ -2,7 +2,7 @@
 /* C07.set_scheme: scheme := input (lower-case, without colon), type recomputed */
 void harness(void) {
   EDITOR_PROLOGUE
-  sv_t input; input.n = nondet_size(); MAKE_SV(input);
+  ND_SV(input);
   __CPROVER_assume(input.n >= 1 && IN_CLASS(input, ':', '/', '?', '#', '@'));
   __CPROVER_assume(u.buffer.n + input.n <= STR_CAP);
 
